@@ -53,6 +53,7 @@ type Spec struct {
 	Rules       []Rule
 	Tags        []string // free-form classification: "lalr1", "conflict-sr", "conflict-rr", "lr1only", "expr", ...
 	NoStartDecl bool     // omit %start (grammar then must name its start symbol "start")
+	MinN        int      // minimal number of symbolic tokens needed to reach the interesting part
 }
 
 func (s *Spec) HasTag(t string) bool {
@@ -397,6 +398,8 @@ func Fixed() []*Spec {
 	add(Expr("expr_right", []PrecLine{{"left", []string{"'+'"}}, {"right", []string{"'^'"}}}, []byte{'+', '^'}, false))
 	add(Expr("expr_nonassoc", []PrecLine{{"nonassoc", []string{"'<'"}}, {"left", []string{"'+'"}}}, []byte{'<', '+'}, false))
 
+	// %precedence (a level without associativity) for the unary operator
+	add(Expr("expr_precedence", []PrecLine{{"left", []string{"'+'", "'-'"}}, {"left", []string{"'*'"}}, {"precedence", []string{"UMINUS"}}}, []byte{'+', '-', '*'}, true))
 	// the %prec alternative first: later alternatives must not inherit its annotation
 	{
 		s := Expr("expr_unary_first", []PrecLine{{"left", []string{"'+'"}}, {"left", []string{"'*'"}}, {"right", []string{"UMINUS"}}}, []byte{'+', '*'}, false)
@@ -497,6 +500,16 @@ func Fixed() []*Spec {
 	add(&Spec{Name: "shared_lookback", Tags: []string{"lalr1"},
 		Toks:  []Tok{lit('x'), lit('y'), lit('z'), lit('a'), lit('b'), lit('p'), lit('q'), lit('r'), lit('s'), lit('t'), lit('u')},
 		Rules: rules("S: 'x' A 'p' | 'x' A 'q' | 'x' A 'r' | 'y' A 's' | 'y' 'b' 'u' | 'z' A 't' | 'z' 'a' 'u'", "A: 'a' | 'b'")})
+	// a rule with ten right-hand-side symbols: $10 is a two-digit reference
+	add(&Spec{Name: "len10", Tags: []string{"lalr1"}, MinN: 10,
+		Toks:  []Tok{litV('a'), litV('b'), litV('c'), litV('d'), litV('e'), litV('f'), litV('g'), litV('h'), litV('i'), litV('j')},
+		Rules: rules("S: 'a' 'b' 'c' 'd' 'e' 'f' 'g' 'h' 'i' X | 'j'", "X: 'j'"),
+		NTTag: allVal("S", "X")})
+	// more than ten rules: two-digit rule numbers in ReduceFunc / trace / tables
+	add(&Spec{Name: "stmts12", Tags: []string{"lalr1"},
+		Toks:  []Tok{named("ID", 400), named("NUM", 401), lit(';'), lit('='), lit('+'), lit('('), lit(')'), lit('{'), lit('}'), lit('!'), lit('?')},
+		Rules: rules("P: L", "L: | L S", "S: ID '=' E ';' | '{' L '}' | '?' E S | ';'", "E: E '+' T | T", "T: ID | NUM | '(' E ')' | '!' T"),
+		NTTag: map[string]string{"P": "val", "L": "val", "S": "alt", "E": "val", "T": "val"}})
 	// default-resolved conflicts
 	add(&Spec{Name: "dangling_else", Tags: []string{"conflict-sr"},
 		Toks:  []Tok{lit('i'), lit('e'), litV('x')},
